@@ -221,6 +221,7 @@ class Contract:
             except TraceUnavailable:
                 continue  # clause speaks about the callee's event trace: not available to the caller
             ctx.assume(f)
+            interp.stats["assumed"].add((self.key, c.label))
         return result
 
 
